@@ -163,7 +163,7 @@ func (b *builder) geom(depth int) vkit.GJ {
 }
 
 func (b *builder) jit(p vkit.P2) vkit.P2 {
-	d := func() float64 { return rapid.Float64Range(-0.45, 0.45).Draw(b.t, "jit") * b.tol }
+	d := func() float64 { return rapid.Float64Range(-0.98, 0.98).Draw(b.t, "jit") * b.tol }
 	return vkit.MkP(float64(p[0])+d(), float64(p[1])+d())
 }
 func (b *builder) jitPts(p []vkit.P2) []vkit.P2 {
@@ -314,8 +314,12 @@ func (b *builder) negative(h vkit.GJ) (vkit.GJ, string, bool) {
 			i := rapid.IntRange(0, len(r)-1).Draw(t, "vi")
 			rr := append([]vkit.P2{}, r...)
 			rr[i] = b.displace(rr[i])
-			if closed && (i == 0 || i == len(r)-1) { // first and closing vertex are one vertex of a closed ring
-				rr[0], rr[len(r)-1] = rr[i], rr[i]
+			if closed && (i == 0 || i == len(r)-1) {
+				// first and closing vertex are one vertex of a closed ring and move together - or (half of the time) the
+				// displaced one moves alone: a closing vertex is a coordinate pair like any other
+				if rapid.Bool().Draw(t, "displaceboth") {
+					rr[0], rr[len(r)-1] = rr[i], rr[i]
+				}
 			}
 			return rr, true
 		case "insert":
@@ -637,13 +641,13 @@ func TestProp(t *testing.T) {
 	vkit.Main(t, vkit.Spec[Case]{
 		ID: "C15",
 		Rule: "rapid: base geometry g of any of the eight types (collections nested to depth 2, members possibly empty; members of 0-6 vertices, a few per cent 250-450) on a lattice of spacing 100*tol with every leaf member in " +
-			"its own block (distinct members far apart) and closed rings having a unique left-most vertex by a lattice step (a quarter of the later rings of a polygon are 'twins' of their predecessor: same vertex count, same left-most vertex and up to two following vertices, everything else far away; likewise a quarter of the later members of a multi-line-string share both end points and the vertex count with their predecessor); h = g with every coordinate perturbed by <0.45*tol " +
+			"its own block (distinct members far apart) and closed rings having a unique left-most vertex by a lattice step (a quarter of the later rings of a polygon are 'twins' of their predecessor: same vertex count, same left-most vertex and up to two following vertices, everything else far away; likewise a quarter of the later members of a multi-line-string share both end points and the vertex count with their predecessor); h = g with every coordinate perturbed by <0.98*tol (the closing vertex of a ring on its own in a quarter of the rings) " +
 			"(closing vertex kept equal to the first), members of multi-line-strings/multi-polygons/polygon rings/collections permuted and ring start vertices rotated -> must be " +
 			"similar; or additionally one negative edit (other type, member inserted/deleted at any position, vertex inserted/deleted, line reversed, one vertex displaced by " +
 			"2-50*tol) at a random nesting level -> must not be similar. Both directions are evaluated and must agree with each other and with the constructed truth. " +
 			"Aliasing: g against a shallow copy of itself in which one point list is re-sliced to a strict prefix sharing memory (first four lists) -> false both ways. " +
 			"Non-trivial = a non-identity permutation/rotation or a negative edit. Distinct by case hash.",
-		Assumptions: []string{"MultiPoint member order and ring direction are not claimed either way", "a closed ring's first and closing vertex are treated as one vertex by perturbation and displacement"},
+		Assumptions: []string{"MultiPoint member order and ring direction are not claimed either way", "a closing vertex is a coordinate pair like any other: perturbed on its own in a quarter of the rings and displaced on its own in half of the displacements that hit it"},
 		Gen:         gen,
 		Run:         run,
 	})
